@@ -279,16 +279,20 @@ impl LocalNode {
     ///
     /// Returns the generation (with tag).
     pub(crate) fn new_helping(&self, ptr: usize) -> usize {
-        let node = &self.node.get().expect("LocalNode::with ensures it is set");
+        let mut node = self.node.get().expect("LocalNode::with ensures it is set");
         debug_assert_eq!(node.in_use.load(Relaxed), NODE_USED);
-        let (gen, discard) = node.helping.get_debt(ptr, &self.helping);
-        if discard {
+        if self.helping.wraps_next() {
             // Too many generations happened, make sure the writers give the poor node a break for
             // a while so they don't observe the generation wrapping around.
+            //
+            // We move to another node *before* the transaction, not after it. The rest of the
+            // transaction (confirm_helping) and any outer frame of this thread (a writer walking
+            // the list calls us to produce a replacement) still need a node to be set.
             node.start_cooldown();
-            self.node.take();
+            node = Node::get();
+            self.node.set(Some(node));
         }
-        gen
+        node.helping.get_debt(ptr, &self.helping)
     }
 
     /// Confirm the helping transaction.
@@ -320,9 +324,19 @@ impl LocalNode {
         T: RefCnt,
         R: Fn() -> T,
     {
-        let node = &self.node.get().expect("LocalNode::with ensures it is set");
+        let node = self.node.get().expect("LocalNode::with ensures it is set");
         debug_assert_eq!(node.in_use.load(Relaxed), NODE_USED);
-        node.helping.help(&who.helping, storage_addr, replacement)
+        // Producing the replacement is a full load on this very thread. If that load wraps the
+        // generation, it sends `node` to cooldown and moves on to another one, while we are still
+        // in the middle of using `node`'s envelope here. Keep it from being claimed by someone else
+        // until we are done with it.
+        let reservation = Cell::new(None);
+        let replacement = || {
+            let r = reservation.take().unwrap_or_else(|| node.reserve_writer());
+            reservation.set(Some(r));
+            replacement()
+        };
+        node.helping.help(&who.helping, storage_addr, &replacement)
     }
 }
 
